@@ -1,7 +1,8 @@
 (* Proofs about model/DagAst.v (C05). *)
 From Coq Require Import List Arith Bool Lia Relations Permutation Sorted.
 Import ListNotations.
-From Dagrt Require Import Simplify SimplifyProofs DagAst.
+From Dagrt Require Import GenC05 Simplify SimplifyProofs DagAst.
+Local Open Scope list_scope.
 
 (* ====================================================================== *)
 (* Part A.  simplify_ast preserves the loop-nest-carrying trace `ltrace`.  *)
@@ -668,12 +669,23 @@ Lemma ltrace_guard_node v trips nest st :
   ltrace v trips nest (guard_node st) = if evalc v (sguard st) then [(sid st, nest)] else [].
 Proof. unfold guard_node. destruct (sguard st); reflexivity. Qed.
 
+(* both shapes of the wrapping: guard inside the loop nest (go = false) or around it (go = true) *)
+Lemma ltrace_wrap_g v trips go st :
+  ltrace v trips [] (wrap_g go st) = if evalc v (sguard st) then stmt_trace trips st else [].
+Proof.
+  unfold wrap_g, stmt_trace. destruct go.
+  - assert (H : ltrace v trips [] (fold_right For (Leaf (sid st)) (sloops st)) =
+                nest_rep trips (sloops st) [(sid st, sloops st)]).
+    { rewrite ltrace_loops. reflexivity. }
+    destruct (sguard st); cbn [ltrace evalc]; rewrite ?H;
+      try reflexivity; match goal with |- context [if ?b then _ else _] => destruct b end; reflexivity.
+  - rewrite ltrace_loops, ltrace_guard_node. cbn [app].
+    destruct (evalc v (sguard st)); [reflexivity|apply nest_rep_nil].
+Qed.
+
 Lemma ltrace_wrap v trips st :
   ltrace v trips [] (wrap st) = if evalc v (sguard st) then stmt_trace trips st else [].
-Proof.
-  unfold wrap, stmt_trace. rewrite ltrace_loops, ltrace_guard_node. cbn [app].
-  destruct (evalc v (sguard st)); [reflexivity|apply nest_rep_nil].
-Qed.
+Proof. apply ltrace_wrap_g. Qed.
 
 (* what the main loop appends for one statement *)
 Definition emit1 (skip_false : bool) (st : stmt) : list ast :=
@@ -957,19 +969,34 @@ Definition core' (st : stmt) : ast :=
   | c => simp_ite c (Leaf (sid st)) Null
   end.
 
-Lemma pre_wrap st : pre (wrap st) = wrap st.
+(* shape "guard inside the loops" *)
+Lemma pre_wrap_in st : pre (wrap_g false st) = wrap_g false st.
 Proof.
-  unfold wrap. induction (sloops st) as [|x l IH]; cbn [fold_right pre].
+  unfold wrap_g. induction (sloops st) as [|x l IH]; cbn [fold_right pre].
   - unfold guard_node. destruct (sguard st); reflexivity.
   - now rewrite IH.
 Qed.
 
-Lemma simp_wrap r g st : simp r g (wrap st) = Ok (fold_right For (core' st) (sloops st)).
+Lemma simp_wrap_in r g st :
+  simp r g (wrap_g false st) = Ok (fold_right For (core' st) (sloops st)).
 Proof.
-  unfold wrap. induction (sloops st) as [|x l IH]; cbn [fold_right simp].
+  unfold wrap_g. induction (sloops st) as [|x l IH]; cbn [fold_right simp].
   - unfold guard_node, core'. destruct (sguard st); reflexivity.
   - rewrite IH. reflexivity.
 Qed.
+
+(* shape "guard around the loops": the loop nest around the bare statement *)
+Lemma pre_nest n loops : pre (fold_right For (Leaf n) loops) = fold_right For (Leaf n) loops.
+Proof. induction loops as [|x l IH]; cbn [fold_right pre]; [reflexivity|now rewrite IH]. Qed.
+
+Lemma simp_nest r g n loops :
+  simp r g (fold_right For (Leaf n) loops) = Ok (fold_right For (Leaf n) loops).
+Proof. induction loops as [|x l IH]; cbn [fold_right simp]; [reflexivity|now rewrite IH]. Qed.
+
+Definition not_ite (t : ast) : bool := match t with IfTE _ _ _ => false | _ => true end.
+
+Lemma nest_not_ite n loops : not_ite (fold_right For (Leaf n) loops) = true.
+Proof. destruct loops; reflexivity. Qed.
 
 Lemma strip_not_swap c : forall t e c' t2 e2, strip_not c t e = (c', t2, e2) ->
   (t2 = t /\ e2 = e) \/ (t2 = e /\ e2 = t).
@@ -1001,20 +1028,48 @@ Proof.
 Qed.
 
 
-Lemma simp_emit1_good r g skip st : (skip = true \/ no_false_loop st) ->
+Lemma simp_ite_null_good c t : not_ite t = true -> good t = true -> good (simp_ite c t Null) = true.
+Proof.
+  intros Hn Hg. unfold simp_ite. destruct (strip_not c t Null) as [[c' t2] e2] eqn:E.
+  destruct (strip_not_swap _ _ _ _ _ _ E) as [[-> ->]|[-> ->]];
+    destruct t; try discriminate; cbn [good andb] in Hg |- *; rewrite ?Hg, ?andb_true_r; reflexivity.
+Qed.
+
+(* one wrapped statement through the pre and main passes, both shapes.  With the guard around the
+   loops a looped statement guarded by the constant False vanishes as a whole, so nothing is needed. *)
+Lemma wrap_g_good r g go st : (go = true \/ sguard st <> CFalse \/ no_false_loop st) ->
+  pre (wrap_g go st) = wrap_g go st /\
+  exists w', simp r g (wrap_g go st) = Ok w' /\ good w' = true.
+Proof.
+  intros Hs. destruct go.
+  - clear Hs. unfold wrap_g.
+    pose proof (pre_nest (sid st) (sloops st)) as Hp.
+    pose proof (simp_nest r g (sid st) (sloops st)) as Hsn.
+    assert (Hg : good (fold_right For (Leaf (sid st)) (sloops st)) = true)
+      by (apply good_chain; reflexivity).
+    pose proof (nest_not_ite (sid st) (sloops st)) as Hn.
+    destruct (sguard st) as [| |c|n]; cbn [pre simp]; rewrite ?Hp, ?Hsn; cbn [rbind];
+      (split; [reflexivity|]); eexists; (split; [reflexivity|]);
+      try assumption; try reflexivity; apply simp_ite_null_good; assumption.
+  - split; [apply pre_wrap_in|].
+    exists (fold_right For (core' st) (sloops st)). split; [apply simp_wrap_in|].
+    destruct (core'_good st) as [Hg Hn].
+    destruct (sloops st) as [|x l] eqn:El; [exact Hg|]. rewrite <- El.
+    apply good_chain; [assumption|]. apply Hn.
+    destruct Hs as [Hs|[Hs|Hs]]; [discriminate|assumption|].
+    apply Hs. rewrite El. discriminate.
+Qed.
+
+Lemma simp_emit1_good r g skip st :
+  (skip = true \/ lower_guard_outside = true \/ no_false_loop st) ->
   forall w, In w (emit1 skip st) ->
   pre w = w /\ exists w', simp r g w = Ok w' /\ good w' = true.
 Proof.
   intros Hs w Hw. unfold emit1 in Hw. destruct (snop st); [destruct Hw|].
   destruct (skip && is_cfalse (sguard st)) eqn:E; [destruct Hw|].
-  destruct Hw as [<-|[]]. split; [apply pre_wrap|].
-  exists (fold_right For (core' st) (sloops st)). split; [apply simp_wrap|].
-  destruct (core'_good st) as [Hg Hn].
-  destruct (sloops st) as [|x l] eqn:El; [exact Hg|]. rewrite <- El.
-  apply good_chain; [assumption|]. apply Hn.
-  destruct Hs as [->|Hs].
-  - cbn [andb] in E. intros Ec. rewrite Ec in E. discriminate.
-  - apply Hs. rewrite El. discriminate.
+  destruct Hw as [<-|[]]. unfold wrap. apply wrap_g_good.
+  destruct Hs as [->|[Hs|Hs]]; [|now left|now right; right].
+  right. left. cbn [andb] in E. intros Ec. rewrite Ec in E. discriminate.
 Qed.
 
 Lemma simp_block_children r g ws :
@@ -1073,7 +1128,7 @@ Proof.
 Qed.
 
 Theorem lower_walk_total r skip stmts : closed stmts ->
-  (skip = true \/ forall st, In st stmts -> no_false_loop st) ->
+  (skip = true \/ lower_guard_outside = true \/ forall st, In st stmts -> no_false_loop st) ->
   exists t evs, lower r true skip stmts = LOk t /\ walk t = WOk evs.
 Proof.
   intros Hc Hs.
@@ -1086,7 +1141,7 @@ Proof.
              pre w = w /\ exists w', simp r true w = Ok w' /\ good w' = true).
   { intros w Hw. unfold ws in Hw. apply in_flat_map in Hw. destruct Hw as (st & Hst & Hw).
     eapply simp_emit1_good; [|exact Hw].
-    destruct Hs as [->|Hs]; [now left|right; apply Hs, Hincl, Hst]. }
+    destruct Hs as [->|[Hs|Hs]]; [now left|now right; left|right; right; apply Hs, Hincl, Hst]. }
   destruct (simp_block_children r true ws Hws) as (Hpre & q & Hq & Hgq).
   (* the children before the main pass are trivially `good` only when the block is empty;
      simp_block returns `Block orig` only for an empty queue, i.e. an empty block *)
@@ -1141,10 +1196,26 @@ Proof.
     apply lookup_some in Hl. destruct Hl as [[<-|[]] _]. destruct Hb.
 Qed.
 
-Lemma lower_walk_refuted r g :
+(* (only with the guard inside the loops; with the guard around them the statement vanishes) *)
+Lemma lower_walk_refuted r g : lower_guard_outside = false ->
   phase_wf wit_false_loop /\
   lower r g false wit_false_loop = LOk (For 0 Null) /\ walk (For 0 Null) = WValueError.
-Proof. split; [exact wit_false_loop_wf|]. destruct r, g; split; reflexivity. Qed.
+Proof.
+  intros H. split; [exact wit_false_loop_wf|].
+  first [ vm_compute in H; discriminate H | destruct r, g; split; reflexivity ].
+Qed.
+
+Example wit_false_loop_guard_outside r :
+  lower_guard_outside = true -> lower r true false wit_false_loop = LOk (Block []).
+Proof. intros H. first [ vm_compute in H; discriminate H | destruct r; reflexivity ]. Qed.
+
+(* the two shapes of the wrapping on one statement *)
+Example wrap_g_shapes :
+  let st := mkStmt 3 [1; 0] (CAtom 0) [0; 1] false in
+  wrap_g false st = For 0 (For 1 (IfTE (CAtom 0) (Leaf 3) Null)) /\
+  wrap_g true st = IfTE (CAtom 0) (For 0 (For 1 (Leaf 3))) Null /\
+  wrap_g true (mkStmt 0 [4] CTrue [2] false) = For 2 (Leaf 0).
+Proof. repeat split. Qed.
 
 Example wit_false_loop_repaired r g : lower r g true wit_false_loop = LOk (Block []).
 Proof. destruct r, g; reflexivity. Qed.
@@ -1182,13 +1253,18 @@ Example ex_phase_lowers :
   topo_order ex_phase = LOk [4; 1; 0; 3; 2] /\
   lower false true false ex_phase =
     LOk (Block [IfT (CNot (CAtom 0)) (Leaf 4); For 2 (Leaf 0);
-                For 0 (For 1 (IfT (CAtom 0) (Leaf 3)))]) /\
+                if lower_guard_outside
+                then IfT (CAtom 0) (For 0 (For 1 (Leaf 3)))
+                else For 0 (For 1 (IfT (CAtom 0) (Leaf 3)))]) /\
   (forall t, lower false true false ex_phase = LOk t ->
      ltrace (fun n => Nat.eqb n 0) (fun x => S x) [] t =
        [(0, [2]); (0, [2]); (0, [2]); (3, [0; 1]); (3, [0; 1])] /\
-     walk t = WOk [EIfBegin (CNot (CAtom 0)); EInst 4; EIfEnd; EForBegin 2; EInst 0; EForEnd 2;
-                   EForBegin 0; EForBegin 1; EIfBegin (CAtom 0); EInst 3; EIfEnd;
-                   EForEnd 1; EForEnd 0]).
+     walk t = WOk ([EIfBegin (CNot (CAtom 0)); EInst 4; EIfEnd; EForBegin 2; EInst 0; EForEnd 2] ++
+                   if lower_guard_outside
+                   then [EIfBegin (CAtom 0); EForBegin 0; EForBegin 1; EInst 3;
+                         EForEnd 1; EForEnd 0; EIfEnd]
+                   else [EForBegin 0; EForBegin 1; EIfBegin (CAtom 0); EInst 3; EIfEnd;
+                         EForEnd 1; EForEnd 0])).
 Proof.
   split; [vm_compute; reflexivity|]. split; [vm_compute; reflexivity|].
   intros t H. vm_compute in H. injection H as <-. split; vm_compute; reflexivity.
